@@ -63,6 +63,9 @@ CHECKS = {
     "C15": dict(level="other", technique="interval analysis of the decision tree of PhQ::Print<T>; string-template evaluation of all Print/JSON/XML/YAML members (JSON parsed, XML/YAML matched); operator<< = Print()",
                 text="Decides notation, precision (max_digits10+1 significant digits per decade), zero handling, component order, labels, unit abbreviation and JSON well-formedness for all values and types, and that parsing uses the matching strto*. Bit-exact parse-back then follows from the IEEE round-trip theorem given a correctly rounding libc, which is trusted, not checked.",
                 note="trusted: clang front end, evaluator, libc printf/strto* correct rounding", ref="3/C15"),
+    "C20": dict(level="other", technique="structural rules over all instantiated bodies: external callees classified by resolved declaration (noexcept / allocation-only / may-throw), may-throw calls discharged by table totality or an enclosing catch(...), unchecked lookups tied to total tables, definite initialisation via the term evaluator, scans for casts to enum types and signed arithmetic, positive controls in every run",
+                text="Decides the clauses the statement names: every lookup hits, no exception other than bad_alloc can escape, the parsers are total, no uninitialised local or member reaches a result, no invalid enumerator or signed overflow can be produced. General memory safety beyond these clauses is not decided (static analysis cannot prove absence of all UB).",
+                note="trusted: clang front end; the callee classification table in vf_lib/props/c20.py (unclassified callees make the check inconclusive); libstdc++ default stream exception mask", ref="3/C20"),
 }
 
 NOT_YET = {
